@@ -383,3 +383,64 @@ Lemma enc_fuel_mono nm sch k k' t v e : (k <= k')%nat ->
 Proof.
   intros Hle; induction Hle as [|m Hle IH]; auto. intros H. apply enc_fuel_S, IH, H.
 Qed.
+
+(** unfolding equations (the kernel must not be asked to convert [tl_encode]
+    into [enc ... tl_fuel] by itself: it would unfold all 64 levels) *)
+Lemma tl_encode_eq nm sch t v : tl_encode nm sch t v = enc nm sch tl_fuel t v.
+Proof. unfold tl_encode. reflexivity. Qed.
+Lemma tl_decode_eq nm sch t bs : tl_decode nm sch t bs = dec nm sch tl_fuel t bs.
+Proof. unfold tl_decode. reflexivity. Qed.
+
+(** * Prefix-freeness: no encoding is a proper prefix of another one of the
+    same type, and an encoding followed by anything parses in one way only *)
+Theorem prefix_free nm sch : ids_distinct sch = true ->
+  forall fuel t v1 v2 e1 e2 r1 r2,
+  enc nm sch fuel t v1 = Some e1 -> enc nm sch fuel t v2 = Some e2 ->
+  e1 ++ r1 = e2 ++ r2 -> v1 = v2 /\ e1 = e2 /\ r1 = r2.
+Proof.
+  intros Hids fuel t v1 v2 e1 e2 r1 r2 H1 H2 E.
+  pose proof (roundtrip nm sch Hids fuel t v1 e1 r1 H1) as D1.
+  pose proof (roundtrip nm sch Hids fuel t v2 e2 r2 H2) as D2.
+  rewrite E, D2 in D1. inversion D1; subst. split; [reflexivity|]. split; [|reflexivity].
+  apply app_inv_tail in E. exact E.
+Qed.
+
+(** a request starts with the id of its function line *)
+Lemma request_starts_with_id nm sch f v e :
+  tl_request nm sch f v = Some e -> firstn 4 e = le_bytes 4 (did f) /\ did f < two32.
+Proof.
+  unfold tl_request. destruct (N.ltb_spec (did f) two32) as [H|]; [|discriminate].
+  destruct (enc_args nm sch tl_fuel f v) as [a|]; [|discriminate].
+  intros E; inversion E; subst. split; [reflexivity|exact H].
+Qed.
+
+(** a boxed value starts with the id of the constructor its record names *)
+Lemma boxed_starts_with_id nm sch fuel T c fs e :
+  enc nm sch fuel (TBoxed T) (VRec c fs) = Some e ->
+  exists d, In d (ctors_of sch T) /\ xlbl nm d = c /\ firstn 4 e = le_bytes 4 (did d).
+Proof.
+  destruct fuel as [|k]; [discriminate|]. cbn [enc].
+  destruct (find (fun d => String.eqb c (xlbl nm d)) (ctors_of sch T)) as [d|] eqn:Hf; [|discriminate].
+  destruct (did d <? two32); [|discriminate].
+  destruct (enc_fields nm (enc nm sch k) (dfields d) fs []) as [x|]; [|discriminate].
+  intros E; inversion E; subst. apply find_some in Hf as [Hin Hc]. apply String.eqb_eq in Hc.
+  exists d. repeat split; auto.
+Qed.
+
+(** an optional field occupies bytes exactly when its mode bit is set *)
+Lemma optional_field_present nm E f fields fs m n mv env :
+  fcond f = Some (m, n) -> assoc m env = Some mv -> is_true_ty (fty f) = false ->
+  enc_fields nm E (f :: fields) fs env =
+    if N.testbit mv n then
+      match fs with
+      | (l, v) :: fs' =>
+          if String.eqb l (lbl nm (fname f)) then
+            opt a <- E (fty f) v; opt b <- enc_fields nm E fields fs' (env_add f v env); Some (a ++ b)
+          else None
+      | [] => None
+      end
+    else enc_fields nm E fields fs env.
+Proof.
+  intros Hc Hm Ht. cbn [enc_fields]. unfold present. rewrite Hc, Hm, Ht, orb_false_r.
+  destruct (N.testbit mv n); reflexivity.
+Qed.
